@@ -1,0 +1,426 @@
+//! Verification hooks (cargo feature `verif-hooks`, off by default).
+//!
+//! Thin, documented wrappers that let an external verification harness reach crate-private
+//! codecs through public types only. Nothing here is used by the library itself.
+
+use crate::{
+    builtin_topics::{
+        BuiltInTopicKey, ParticipantBuiltinTopicData, PublicationBuiltinTopicData,
+        SubscriptionBuiltinTopicData, TopicBuiltinTopicData,
+    },
+    dcps::{
+        data_representation_builtin_endpoints::{
+            discovered_reader_data::{DiscoveredReaderData, ReaderProxy},
+            discovered_topic_data::DiscoveredTopicData,
+            discovered_writer_data::{DiscoveredWriterData, WriterProxy},
+            spdp_discovered_participant_data::{
+                BuiltinEndpointQos, BuiltinEndpointSet, ParticipantProxy,
+                SpdpDiscoveredParticipantData,
+            },
+            type_lookup::{TypeLookupReply, TypeLookupRequest},
+        },
+        xtypes_glue::key_and_instance_handle::get_instance_handle_from_dynamic_data,
+    },
+    infrastructure::{
+        instance::InstanceHandle,
+        qos::{DataReaderQos, DataWriterQos, PublisherQos, SubscriberQos, TopicQos},
+        qos_policy::{TopicDataQosPolicy, UserDataQosPolicy},
+        time::Duration,
+    },
+    rtps::types::{PROTOCOLVERSION, VENDOR_ID_S2E},
+    transport::types::{EntityId, Guid, Locator},
+    xtypes::{
+        deserializer::deserialize_top_level_type,
+        dynamic_type::{DynamicData, DynamicType},
+        error::XTypesError,
+        serializer::{serialize_cdr1_be, serialize_cdr1_le, serialize_cdr2_be, serialize_cdr2_le},
+        type_support::{Type, TypeSupport},
+    },
+};
+use alloc::{format, string::String, vec::Vec};
+
+/// XCDR version and byte order of a serialized sample.
+#[derive(Clone, Copy, Debug, PartialEq, Eq)]
+pub enum VerifEncoding {
+    /// XCDR version 1, little endian
+    Xcdr1Le,
+    /// XCDR version 1, big endian
+    Xcdr1Be,
+    /// XCDR version 2, little endian
+    Xcdr2Le,
+    /// XCDR version 2, big endian
+    Xcdr2Be,
+}
+
+/// Serialize a sample (with encapsulation header) exactly like a data writer does.
+pub fn serialize(data: &DynamicData, encoding: VerifEncoding) -> Result<Vec<u8>, XTypesError> {
+    match encoding {
+        VerifEncoding::Xcdr1Le => serialize_cdr1_le(data),
+        VerifEncoding::Xcdr1Be => serialize_cdr1_be(data),
+        VerifEncoding::Xcdr2Le => serialize_cdr2_le(data),
+        VerifEncoding::Xcdr2Be => serialize_cdr2_be(data),
+    }
+}
+
+/// Deserialize a sample (with encapsulation header) exactly like a data reader does.
+pub fn deserialize<'a>(
+    dynamic_type: DynamicType<'a>,
+    bytes: &[u8],
+) -> Result<DynamicData<'a>, XTypesError> {
+    deserialize_top_level_type(dynamic_type, bytes)
+}
+
+/// Instance handle (key hash) a writer/reader derives for a sample.
+pub fn instance_handle(data: &DynamicData) -> Result<InstanceHandle, XTypesError> {
+    get_instance_handle_from_dynamic_data(data)
+}
+
+/// Participant announcement (SPDP) content expressed with public types.
+#[derive(Clone, Debug, PartialEq)]
+pub struct VerifParticipantData {
+    /// participant GUID (16 bytes)
+    pub key: [u8; 16],
+    /// USER_DATA value
+    pub user_data: Vec<u8>,
+    /// domain id, if announced
+    pub domain_id: Option<i32>,
+    /// domain tag
+    pub domain_tag: String,
+    /// expects inline qos flag
+    pub expects_inline_qos: bool,
+    /// metatraffic unicast locators
+    pub metatraffic_unicast_locator_list: Vec<Locator>,
+    /// metatraffic multicast locators
+    pub metatraffic_multicast_locator_list: Vec<Locator>,
+    /// default unicast locators
+    pub default_unicast_locator_list: Vec<Locator>,
+    /// default multicast locators
+    pub default_multicast_locator_list: Vec<Locator>,
+    /// available builtin endpoints bit set
+    pub available_builtin_endpoints: u32,
+    /// manual liveliness count
+    pub manual_liveliness_count: i32,
+    /// builtin endpoint qos bit set
+    pub builtin_endpoint_qos: u32,
+    /// participant lease duration
+    pub lease_duration: Duration,
+}
+
+/// Encode a participant announcement.
+pub fn encode_participant(d: &VerifParticipantData) -> Vec<u8> {
+    SpdpDiscoveredParticipantData {
+        dds_participant_data: ParticipantBuiltinTopicData {
+            key: BuiltInTopicKey { value: d.key },
+            user_data: UserDataQosPolicy {
+                value: d.user_data.clone(),
+            },
+        },
+        participant_proxy: ParticipantProxy {
+            domain_id: d.domain_id,
+            domain_tag: d.domain_tag.clone(),
+            protocol_version: PROTOCOLVERSION,
+            guid_prefix: Guid::from(d.key).prefix(),
+            vendor_id: VENDOR_ID_S2E,
+            expects_inline_qos: d.expects_inline_qos,
+            metatraffic_unicast_locator_list: d.metatraffic_unicast_locator_list.clone(),
+            metatraffic_multicast_locator_list: d.metatraffic_multicast_locator_list.clone(),
+            default_unicast_locator_list: d.default_unicast_locator_list.clone(),
+            default_multicast_locator_list: d.default_multicast_locator_list.clone(),
+            available_builtin_endpoints: BuiltinEndpointSet::new(d.available_builtin_endpoints),
+            manual_liveliness_count: d.manual_liveliness_count,
+            builtin_endpoint_qos: BuiltinEndpointQos::new(d.builtin_endpoint_qos),
+        },
+        lease_duration: d.lease_duration,
+        discovered_participant_list: Vec::new(),
+    }
+    .into_bytes()
+}
+
+/// Decode a participant announcement; the error is rendered as text.
+pub fn decode_participant(bytes: &[u8]) -> Result<VerifParticipantData, String> {
+    let d = SpdpDiscoveredParticipantData::from_bytes(bytes).map_err(|e| format!("{e:?}"))?;
+    Ok(VerifParticipantData {
+        key: d.dds_participant_data.key.value,
+        user_data: d.dds_participant_data.user_data.value,
+        domain_id: d.participant_proxy.domain_id,
+        domain_tag: d.participant_proxy.domain_tag,
+        expects_inline_qos: d.participant_proxy.expects_inline_qos,
+        metatraffic_unicast_locator_list: d.participant_proxy.metatraffic_unicast_locator_list,
+        metatraffic_multicast_locator_list: d.participant_proxy.metatraffic_multicast_locator_list,
+        default_unicast_locator_list: d.participant_proxy.default_unicast_locator_list,
+        default_multicast_locator_list: d.participant_proxy.default_multicast_locator_list,
+        available_builtin_endpoints: d.participant_proxy.available_builtin_endpoints.0,
+        manual_liveliness_count: d.participant_proxy.manual_liveliness_count,
+        builtin_endpoint_qos: d.participant_proxy.builtin_endpoint_qos.0,
+        lease_duration: d.lease_duration,
+    })
+}
+
+/// Publication announcement (SEDP) content expressed with public types.
+#[derive(Clone, Debug, PartialEq)]
+pub struct VerifPublicationData {
+    /// writer GUID
+    pub key: [u8; 16],
+    /// participant GUID
+    pub participant_key: [u8; 16],
+    /// topic name
+    pub topic_name: String,
+    /// type name
+    pub type_name: String,
+    /// type whose type information is announced, if any
+    pub type_information_of: Option<DynamicType<'static>>,
+    /// writer QoS (the announced policies are taken from it)
+    pub writer_qos: DataWriterQos,
+    /// publisher QoS (presentation, partition, group data)
+    pub publisher_qos: PublisherQos,
+    /// TOPIC_DATA value
+    pub topic_data: Vec<u8>,
+    /// group entity id
+    pub group_entity_id: [u8; 4],
+    /// unicast locators
+    pub unicast_locator_list: Vec<Locator>,
+    /// multicast locators
+    pub multicast_locator_list: Vec<Locator>,
+}
+
+fn entity_id(v: [u8; 4]) -> EntityId {
+    EntityId::new([v[0], v[1], v[2]], v[3])
+}
+
+fn entity_id_bytes(e: EntityId) -> [u8; 4] {
+    let k = e.entity_key();
+    [k[0], k[1], k[2], e.entity_kind()]
+}
+
+/// Encode a publication announcement.
+pub fn encode_publication(d: &VerifPublicationData) -> Vec<u8> {
+    DiscoveredWriterData {
+        dds_publication_data: PublicationBuiltinTopicData {
+            key: BuiltInTopicKey { value: d.key },
+            participant_key: BuiltInTopicKey {
+                value: d.participant_key,
+            },
+            topic_name: d.topic_name.clone().into(),
+            type_name: d.type_name.clone().into(),
+            type_information: d.type_information_of.map(|t| t.into()),
+            durability: d.writer_qos.durability.clone(),
+            deadline: d.writer_qos.deadline.clone(),
+            latency_budget: d.writer_qos.latency_budget.clone(),
+            liveliness: d.writer_qos.liveliness.clone(),
+            reliability: d.writer_qos.reliability.clone(),
+            lifespan: d.writer_qos.lifespan.clone(),
+            user_data: d.writer_qos.user_data.clone(),
+            ownership: d.writer_qos.ownership.clone(),
+            ownership_strength: d.writer_qos.ownership_strength.clone(),
+            destination_order: d.writer_qos.destination_order.clone(),
+            presentation: d.publisher_qos.presentation.clone(),
+            partition: d.publisher_qos.partition.clone(),
+            topic_data: TopicDataQosPolicy {
+                value: d.topic_data.clone(),
+            },
+            group_data: d.publisher_qos.group_data.clone(),
+            representation: d.writer_qos.representation.clone(),
+        },
+        writer_proxy: WriterProxy {
+            remote_writer_guid: Guid::from(d.key),
+            remote_group_entity_id: entity_id(d.group_entity_id),
+            unicast_locator_list: d.unicast_locator_list.clone(),
+            multicast_locator_list: d.multicast_locator_list.clone(),
+        },
+    }
+    .into_bytes()
+}
+
+/// Decoded publication announcement.
+#[derive(Clone, Debug, PartialEq)]
+pub struct VerifDecodedPublication {
+    /// builtin topic data as handed to the application
+    pub data: PublicationBuiltinTopicData,
+    /// remote writer GUID
+    pub remote_writer_guid: [u8; 16],
+    /// group entity id
+    pub group_entity_id: [u8; 4],
+    /// unicast locators
+    pub unicast_locator_list: Vec<Locator>,
+    /// multicast locators
+    pub multicast_locator_list: Vec<Locator>,
+    /// whether type information was present
+    pub has_type_information: bool,
+}
+
+/// Decode a publication announcement; the error is rendered as text.
+pub fn decode_publication(bytes: &[u8]) -> Result<VerifDecodedPublication, String> {
+    let d = DiscoveredWriterData::from_bytes(bytes).map_err(|e| format!("{e:?}"))?;
+    Ok(VerifDecodedPublication {
+        has_type_information: d.dds_publication_data.type_information.is_some(),
+        data: d.dds_publication_data,
+        remote_writer_guid: d.writer_proxy.remote_writer_guid.into(),
+        group_entity_id: entity_id_bytes(d.writer_proxy.remote_group_entity_id),
+        unicast_locator_list: d.writer_proxy.unicast_locator_list,
+        multicast_locator_list: d.writer_proxy.multicast_locator_list,
+    })
+}
+
+/// Subscription announcement (SEDP) content expressed with public types.
+#[derive(Clone, Debug, PartialEq)]
+pub struct VerifSubscriptionData {
+    /// reader GUID
+    pub key: [u8; 16],
+    /// participant GUID
+    pub participant_key: [u8; 16],
+    /// topic name
+    pub topic_name: String,
+    /// type name
+    pub type_name: String,
+    /// type whose type information is announced, if any
+    pub type_information_of: Option<DynamicType<'static>>,
+    /// reader QoS (the announced policies are taken from it)
+    pub reader_qos: DataReaderQos,
+    /// subscriber QoS (presentation, partition, group data)
+    pub subscriber_qos: SubscriberQos,
+    /// TOPIC_DATA value
+    pub topic_data: Vec<u8>,
+    /// group entity id
+    pub group_entity_id: [u8; 4],
+    /// unicast locators
+    pub unicast_locator_list: Vec<Locator>,
+    /// multicast locators
+    pub multicast_locator_list: Vec<Locator>,
+    /// expects inline qos flag
+    pub expects_inline_qos: bool,
+}
+
+/// Encode a subscription announcement.
+pub fn encode_subscription(d: &VerifSubscriptionData) -> Vec<u8> {
+    DiscoveredReaderData {
+        dds_subscription_data: SubscriptionBuiltinTopicData {
+            key: BuiltInTopicKey { value: d.key },
+            participant_key: BuiltInTopicKey {
+                value: d.participant_key,
+            },
+            topic_name: d.topic_name.clone().into(),
+            type_name: d.type_name.clone().into(),
+            type_information: d.type_information_of.map(|t| t.into()),
+            durability: d.reader_qos.durability.clone(),
+            deadline: d.reader_qos.deadline.clone(),
+            latency_budget: d.reader_qos.latency_budget.clone(),
+            liveliness: d.reader_qos.liveliness.clone(),
+            reliability: d.reader_qos.reliability.clone(),
+            ownership: d.reader_qos.ownership.clone(),
+            destination_order: d.reader_qos.destination_order.clone(),
+            user_data: d.reader_qos.user_data.clone(),
+            time_based_filter: d.reader_qos.time_based_filter.clone(),
+            presentation: d.subscriber_qos.presentation.clone(),
+            partition: d.subscriber_qos.partition.clone(),
+            topic_data: TopicDataQosPolicy {
+                value: d.topic_data.clone(),
+            },
+            group_data: d.subscriber_qos.group_data.clone(),
+            representation: d.reader_qos.representation.clone(),
+            type_consistency: d.reader_qos.type_consistency.clone(),
+        },
+        reader_proxy: ReaderProxy {
+            remote_reader_guid: Guid::from(d.key),
+            remote_group_entity_id: entity_id(d.group_entity_id),
+            unicast_locator_list: d.unicast_locator_list.clone(),
+            multicast_locator_list: d.multicast_locator_list.clone(),
+            expects_inline_qos: d.expects_inline_qos,
+        },
+    }
+    .into_bytes()
+}
+
+/// Decoded subscription announcement.
+#[derive(Clone, Debug, PartialEq)]
+pub struct VerifDecodedSubscription {
+    /// builtin topic data as handed to the application
+    pub data: SubscriptionBuiltinTopicData,
+    /// remote reader GUID
+    pub remote_reader_guid: [u8; 16],
+    /// group entity id
+    pub group_entity_id: [u8; 4],
+    /// unicast locators
+    pub unicast_locator_list: Vec<Locator>,
+    /// multicast locators
+    pub multicast_locator_list: Vec<Locator>,
+    /// expects inline qos flag
+    pub expects_inline_qos: bool,
+    /// whether type information was present
+    pub has_type_information: bool,
+}
+
+/// Decode a subscription announcement; the error is rendered as text.
+pub fn decode_subscription(bytes: &[u8]) -> Result<VerifDecodedSubscription, String> {
+    let d = DiscoveredReaderData::from_bytes(bytes).map_err(|e| format!("{e:?}"))?;
+    Ok(VerifDecodedSubscription {
+        has_type_information: d.dds_subscription_data.type_information.is_some(),
+        data: d.dds_subscription_data,
+        remote_reader_guid: d.reader_proxy.remote_reader_guid.into(),
+        group_entity_id: entity_id_bytes(d.reader_proxy.remote_group_entity_id),
+        unicast_locator_list: d.reader_proxy.unicast_locator_list,
+        multicast_locator_list: d.reader_proxy.multicast_locator_list,
+        expects_inline_qos: d.reader_proxy.expects_inline_qos,
+    })
+}
+
+/// Topic announcement content expressed with public types.
+#[derive(Clone, Debug, PartialEq)]
+pub struct VerifTopicData {
+    /// topic key
+    pub key: [u8; 16],
+    /// topic name
+    pub name: String,
+    /// type name
+    pub type_name: String,
+    /// type whose type information is announced, if any
+    pub type_information_of: Option<DynamicType<'static>>,
+    /// topic QoS
+    pub qos: TopicQos,
+}
+
+/// Encode a topic announcement.
+pub fn encode_topic(d: &VerifTopicData) -> Vec<u8> {
+    DiscoveredTopicData {
+        topic_builtin_topic_data: TopicBuiltinTopicData {
+            key: BuiltInTopicKey { value: d.key },
+            name: d.name.clone().into(),
+            type_name: d.type_name.clone().into(),
+            type_information: d.type_information_of.map(|t| t.into()),
+            durability: d.qos.durability.clone(),
+            deadline: d.qos.deadline.clone(),
+            latency_budget: d.qos.latency_budget.clone(),
+            liveliness: d.qos.liveliness.clone(),
+            reliability: d.qos.reliability.clone(),
+            transport_priority: d.qos.transport_priority.clone(),
+            lifespan: d.qos.lifespan.clone(),
+            destination_order: d.qos.destination_order.clone(),
+            history: d.qos.history.clone(),
+            resource_limits: d.qos.resource_limits.clone(),
+            ownership: d.qos.ownership.clone(),
+            topic_data: d.qos.topic_data.clone(),
+            representation: d.qos.representation.clone(),
+        },
+    }
+    .into_bytes()
+}
+
+/// Decode a topic announcement; returns the builtin topic data and whether type information was present.
+pub fn decode_topic(bytes: &[u8]) -> Result<(TopicBuiltinTopicData, bool), String> {
+    let d = DiscoveredTopicData::from_bytes(bytes).map_err(|e| format!("{e:?}"))?;
+    let has = d.topic_builtin_topic_data.type_information.is_some();
+    Ok((d.topic_builtin_topic_data, has))
+}
+
+/// Decode a type-lookup request payload the way the builtin reader does; Ok(true) when a sample results, Ok(false) when the dynamic data does not convert.
+pub fn decode_type_lookup_request(bytes: &[u8]) -> Result<bool, String> {
+    deserialize_top_level_type(TypeLookupRequest::TYPE, bytes)
+        .map(|mut d| TypeLookupRequest::create_sample(&mut d).is_some())
+        .map_err(|e| format!("{e:?}"))
+}
+
+/// Decode a type-lookup reply payload the way the builtin reader does; Ok(true) when a sample results, Ok(false) when the dynamic data does not convert.
+pub fn decode_type_lookup_reply(bytes: &[u8]) -> Result<bool, String> {
+    deserialize_top_level_type(TypeLookupReply::TYPE, bytes)
+        .map(|mut d| TypeLookupReply::create_sample(&mut d).is_some())
+        .map_err(|e| format!("{e:?}"))
+}
